@@ -2,11 +2,11 @@ SPECIFICATION SpecP
 VIEW view
 CONSTANTS
   OffsMod = 65536
-  Kind = "nameaddr"
-  Atoms <- AtomsStruct2
+  Kind = "contacts"
+  Atoms <- AtomsListS
   Prefix <- PfxNone
-  MaxLen = 4
-  Cfgs <- CfgsNA18
+  MaxLen = 6
+  Cfgs <- CfgsCont
   Junk = 34
   EmitOn = TRUE
 INVARIANTS ResumeEqFresh Stable OffsSane Emit
